@@ -83,6 +83,11 @@ def runOp (cfg : Cfg) (kind : String) (args : List (List Char)) : Option (M (Lis
         let d ← peek cfg h
         let _ ← attempt (hClose h)
         pure [s2l "ok", s2l "data", h.h.name, d.toList])
+  | "fstat", [p] => some (do
+      let h ← BackupFS.openFile cfg p O_RDONLY 0
+      let fi ← hStat cfg h
+      let _ ← attempt (hClose h)
+      pure (s2l "ok" :: h.h.name :: showInfo fi))
   | "creatread", [p, data] => some (do
       -- Create, write, read the content back through the same handle, close (the handle's access
       -- mode decides whether the read is allowed: `MFS.hread`)
